@@ -187,6 +187,8 @@ class Exec:
         self.global_init = {}
         self.on_call = {}
         self.on_return = {}
+        self.watch_maps = None      # regex over symbolic map base names: accesses leave 'shared' events (lockset analysis)
+        self.watch_fields = {}      # (obj, path) -> label
         self.trace_slow = bool(__import__('os').environ.get('SYMX_TRACE_SLOW'))
         self.fresh_cache = {}
         self.use_portfolio = True
@@ -397,7 +399,15 @@ class Exec:
         # a materialised aggregate stored in a cell must not be shared with the memo copy
         return clone(v) if isinstance(v, (StructV, ArrayV)) else v
 
+    def note_map(self, st, m, kind):
+        if self.watch_maps is None or not isinstance(m, MapV): return
+        cell = st.heap.get(m.obj)
+        b = cell.get('base') if isinstance(cell, dict) else None
+        if b and self.watch_maps.search(b): st.ev('shared', obj=b, kind=kind, where=self.where(st))
+
     def load(self, st, p):
+        if self.watch_fields and isinstance(p, Ptr) and (p.obj, p.path) in self.watch_fields:
+            st.ev('shared', obj=self.watch_fields[(p.obj, p.path)], kind='r', where=self.where(st))
         if not isinstance(p, Ptr): raise Panic('nil pointer dereference')
         c, k = self.walk(st, p)
         v = c[k]
@@ -405,6 +415,8 @@ class Exec:
         return clone(v) if isinstance(v, (StructV, ArrayV)) else v
 
     def store(self, st, p, val):
+        if self.watch_fields and isinstance(p, Ptr) and (p.obj, p.path) in self.watch_fields:
+            st.ev('shared', obj=self.watch_fields[(p.obj, p.path)], kind='w', where=self.where(st))
         if not isinstance(p, Ptr): raise Panic('nil pointer dereference (store)')
         c, k = self.walk(st, p)
         c[k] = clone(val)
@@ -766,6 +778,7 @@ class Exec:
         elif op == 'MapUpdate':
             m = V(ins['map']); key = V(ins['key']); val = V(ins['value'])
             if not isinstance(m, MapV): raise Panic('assignment to entry in nil map')
+            self.note_map(st, m, 'w')
             st.heap[m.obj]['writes'].append(['set', key, clone(val)])
         elif op == 'MakeClosure':
             R[ins['reg']] = FuncV(ins['fn']['name'], [V(b) for b in ins['bindings']])
@@ -789,6 +802,7 @@ class Exec:
         elif op == 'Range':
             x = V(ins['x'])
             if isinstance(x, MapV):
+                self.note_map(st, x, 'r')
                 R[ins['reg']] = ('mapiter', x.obj, st.alloc({'pos': 0}))
             elif z3.is_expr(x) and z3.is_string(x):
                 R[ins['reg']] = ('striter', x, st.alloc({'pos': 0}))
@@ -974,6 +988,7 @@ class Exec:
         if isinstance(x, Nil):
             setres(st, self.zero(et), z3.BoolVal(False)); return None
         if not isinstance(x, MapV): raise Unsupported('lookup on ' + repr(x))
+        self.note_map(st, x, 'r')
         m = st.heap[x.obj]
         # walk writes from the latest; fork on key equality when it cannot be decided syntactically
         out = []; cur = st; miss = []
@@ -1410,6 +1425,7 @@ class Exec:
             elif z3.is_expr(x) and z3.is_string(x): R[reg] = IntV(z3.Length(x))
             elif isinstance(x, BytesV): R[reg] = IntV(z3.Length(x.s))
             elif isinstance(x, MapV):
+                self.note_map(st, x, 'r')
                 m = st.heap[x.obj]
                 if m['base'] is None:
                     ents = self.map_entries(st, x.obj)
@@ -1447,6 +1463,7 @@ class Exec:
         if name == 'delete':
             m, key = args
             if isinstance(m, Nil): return None
+            self.note_map(st, m, 'w')
             st.heap[m.obj]['writes'].append(['del', key]); return None
         if name == 'copy':
             d, s = args
